@@ -274,6 +274,9 @@ def field_of(e):
     return None
 
 
+# generic robustness battery: renaming every local/parameter in these files must not change any verdict
+RENAME_LOCALS = ['src/phashtable.c', 'src/plist.c']
+
 SELFTEST = [
     dict(id="hash-signed-add-again", file="src/phashtable.c", expect="C15.1",
          old="((psize) (pssize) P_POINTER_TO_INT (pointer) + 37)", new="((psize) (P_POINTER_TO_INT (pointer) + 37))"),
